@@ -78,6 +78,26 @@ claim('C09', 'verus',
       'NOT decided: mutual exclusion, lost wake-ups, join, thread queue links, atomics in generated code - interleaving properties are outside this technique.',
       'DESIGN.md §4 C09')
 
+claim('C07', 'kani+verus',
+      'contract-based verification: Kani/CBMC loop-free full-domain proofs of every public instruction method of the real x86-64 assembler against a reference decoder, plus Verus contracts on the jump/label code',
+      'Every one of the 209 public instruction methods of dora_asm::x64::AssemblerX64 has a contract row (225 rows): operands range over all 16 GPR/XMM registers, all five Address constructors with any base/index/scale/i32 displacement, any i64 immediate, every condition; '
+      'postcondition: the emitted bytes decode, under a reference decoder written from the SDM and validated against llvm-mc, to exactly the requested mnemonic, operand size and operands, with nothing left over; an operand the assembler cannot encode must be refused by a panic. '
+      'CBMC decides each row for all operands at once; counterexamples are replayed on the real crate. Jumps to labels (jmp/jcc/jmp_near/jcc_near, resolve_jumps) are additionally proved in Verus for ALL distances, short and near, forward and backward. '
+      'Quick tier: 155 rows (< 2.5 min each) + the Verus unit; thorough tier: all 225 rows.',
+      'Trusted: Kani/CBMC, Verus/Z3, the reference decoder + request table (oracle; cross-checked against llvm-mc on ~15 000 samples, not proved), debug-build arithmetic. Open known finding: testl_ri narrows to the 8-bit form for 0..=255. '
+      'Not covered: the Dora-side assembler (pkgs/boots/assembler/x64.dora), callers in masm/x64.rs.',
+      'DESIGN.md §4 C07, §9')
+
+claim('C08', 'kani+verus',
+      'contract-based verification: Kani/CBMC loop-free full-domain proofs of every public instruction method of the real AArch64 assembler (and of its private class encoders) against a reference decoder, plus Verus contracts on the branch/label code',
+      'Every one of the 286 public instruction methods of dora_asm::arm64::AssemblerArm64 has a contract row (312 rows) and the private branch class encoders / range predicates have 10 more (scratch copy of the crate with the rows appended as a child module): '
+      'operands range over x0..x30, zr, sp, v0..v31, any u32/i32/u64/i64 immediate, every condition/shift/extend; postcondition: the emitted word decodes, under a reference decoder written from the Arm ARM and validated against llvm-mc, to exactly the request - so an operand that cannot be encoded must be refused, a silently truncated field is a violation. '
+      'Branches to labels (b, b.cond, cbz/cbnz, tbz/tbnz, adr; resolve_jumps incl. the out-of-range fallbacks) are proved in Verus for ALL distances over the class-encoder contracts. Six genuine defects were found and repaired (fix: commits). '
+      'Quick tier: 266 rows + 10 private rows + the Verus unit; thorough tier adds the bounded label rows and the 11 slow multi-instruction helpers.',
+      'Trusted: Kani/CBMC, Verus/Z3, the reference decoder + request table (oracle; 0 disagreements with llvm-mc on 3343 sampled words), debug-build arithmetic. '
+      'Not covered: pkgs/boots/assembler/arm64.dora, callers in masm/arm64.rs; 5 mem-helper rows are decided only in the thorough tier on an idle machine (10-15 GB each).',
+      'DESIGN.md §4 C08, §9')
+
 NA_REASONS = {
  'C01': 'quantifies over all programs and the behaviour of emitted machine code of two generators (one written in Dora); no function contract can state it',
  'C02': 'relational property between two compilers over all programs and run-time values; memory safety of generated code is not a property of a Rust function',
